@@ -64,6 +64,9 @@ def feed(run, mode, nd, classify=None, sig_of=None, budget_ms=5000, key=None, en
     recs = read_records(nd)
     res = run_vh(mode, nd, budget_ms=budget_ms, env_extra=env_extra)
     for i, (rec, r) in enumerate(zip(recs, res)):
+        if r.get("skipped"):
+            run.extra["skipped_after_repeated_aborts"] = run.extra.get("skipped_after_repeated_aborts", 0) + 1
+            continue
         classes = r.get("classes") or (classify(rec) if classify else [])
         k = key(rec) if key else json.dumps(rec, sort_keys=True)
         run.count(hash(k), classes)
@@ -573,3 +576,56 @@ def c14(run):
 
 
 MODES["C14"] = "diag"
+
+
+# ------------------------------------------------------------------ C06
+def crash_only(rec, r, v):
+    return v.get("kind")
+
+
+@check("C06")
+def c06(run):
+    run.rule = ("spec/Totality.tla: from 469 valid texts (Syntax.tla's catalogue in four styles, two-entry files) one mutation: every prefix cut at "
+                "every character, every short deletion, duplication, and - for 40 texts covering every construct - every token of the ledger alphabet "
+                "and 12 awkward Unicode scalars (combining, wide, BOM, zero-width, NUL, non-BMP, lone CR) inserted at every position; amounts nested "
+                "1..20000 parentheses deep; all include graphs over three files with cyclic and missing includes (Loader.tla); zero-valued "
+                "amounts, rates and totals in every position (Ledger.tla CostLot/Plain scripts); thorough: TLC simulation of mutation walks of depth <= 12. "
+                "Each input goes to parse_ledger, format, Loader::load + report::process + balance/eval, and every 10th to the CLI commands "
+                "format/balance/register/accounts/flatten/balance -X; non-trivial = inputs that do not parse or are rejected")
+    run.assumptions += ["a panic is caught and reported; an abort (stack overflow) or an input exceeding the 5 s budget is attributed to its input by the runner",
+                        "numbers stay within the representable range (huge literals are C07's)",
+                        "CLI commands run in-process through okane::cmd::Cli (main's error mapping is not exercised)",
+                        "arbitrary Unicode is sampled through a finite awkward set, not enumerated"]
+    nd, n, st = tlc_gen("MCTotality.tla", "Totality_quick.cfg", "C06-mut", workers=8, timeout=1700, dedup=True)
+    st["scenario"] = "one mutation"
+    run.add_model(st)
+    feed(run, "total", nd, key=lambda r: r["text"])
+    if run.tier == "thorough":
+        nd, n, st = tlc_gen("MCTotality.tla", "Totality_walk.cfg", "C06-walk", simulate={"num": 15000, "depth": 13}, seed=run.seed, timeout=2400)
+        st["scenario"] = "mutation walks (simulation)"
+        run.add_model(st)
+        feed(run, "total", nd, key=lambda r: r["text"])
+    # include graphs with cycles / missing files
+    run.add_model(tlc_check("MCLoader.tla", "Loader_ArbLive.cfg", workers=4))
+    nd, n, st = tlc_gen("MCLoader.tla", "Loader_Arb.cfg", "C06-loader", workers=8, timeout=2400, dedup=True)
+    st["scenario"] = "include graphs (failing ones)"
+    run.add_model(st)
+    feed(run, "loader", nd, keep=lambda r: r["expect"]["status"] != "ok", key=lambda r: json.dumps(r["fs"], sort_keys=True))
+    # arithmetic hazards: only crashes count here (verdicts belong to C01)
+    for sc in ["CostLot", "Plain"]:
+        nd, n, st = tlc_gen("MCLedger.tla", "Ledger_%s.cfg" % sc, "C06-%s" % sc, workers=8, timeout=1700)
+        st["scenario"] = sc
+        run.add_model(st)
+        recs = read_records(nd)
+        res = run_vh("ledger", nd)
+        for rec, r in zip(recs, res):
+            run.count(hash(json.dumps(rec["input"], sort_keys=True)), r.get("classes") or [])
+            for v in r.get("viol", []):
+                if v.get("kind", "").startswith(("panic", "fatal_")):
+                    rec2 = dict(rec); rec2["_mode"] = "ledger"
+                    run.report(v["kind"], rec2, r, "%s: %s" % (v["kind"], v.get("msg")))
+        run.traces += len(recs)
+    run.exhaustive = run.tier == "quick"
+
+
+MODES["C06"] = "total"
